@@ -152,14 +152,56 @@ def run_op(mod, objs, st):
         raise BuildError('unknown op ' + op)
 
 
+class _NoSolve(object):
+    """Stands in for the model's EquationSolver while Model.main() runs: records the block, solves nothing."""
+
+    def __init__(self):
+        self.text = None
+
+    def ParseString(self, text):
+        self.text = text
+        return ''
+
+    def SolveEquation(self):
+        return None
+
+    def GenerateCSVtext(self, format_str='%.5g'):
+        return ''
+
+
 def generate_equations(mod):
-    """Model.main() up to and including _CreateFinalEquations, without solving."""
-    mod._GenerateFullSectorCodes()
-    mod._GenerateEquations()
-    mod._FixAliases()
-    mod._GenerateRegisteredCashFlows()
-    mod._ProcessExogenous()
-    return mod._CreateFinalEquations()
+    """The equation block Model.main() hands to its solver: the REAL main() is run (its own sequence of steps and its own
+    exception handling) with the solver replaced by a recorder.  main() catches Warning (it logs it through LogInfo and
+    returns); the harness re-raises it, because the models report it as an outcome of their own (Err Warning_)."""
+    import contextlib
+    import io
+    seen = []
+    orig_log = mod.LogInfo
+
+    def log_info(*a, **kw):
+        ex = kw.get('ex', a[1] if len(a) > 1 else None)
+        if ex is not None:
+            seen.append(ex)
+        return orig_log(*a, **kw)
+    solver = mod.EquationSolver
+    mod.EquationSolver = _NoSolve()
+    mod.LogInfo = log_info
+    try:
+        with contextlib.redirect_stdout(io.StringIO()):
+            mod.main()
+        text = mod.EquationSolver.text
+    finally:
+        mod.EquationSolver = solver
+        try:
+            del mod.LogInfo
+        except AttributeError:
+            pass
+    warned = [e for e in seen if isinstance(e, Warning)]
+    if warned:
+        raise warned[0]
+    if text is None:
+        raise BuildError('Model.main() returned without handing a block to its solver')
+    return text
 
 
 # ----------------------------------------------------------------------------------------------
